@@ -331,4 +331,228 @@ theorem run_dir (s : PState) (t : List Op) : (s.run t).dir = s.dir.run t := by
     rw [ih]
     rfl
 
+/-! ## the modelled protocol (helpers for `C01_protocol_disciplined_partial`) -/
+
+theorem run_append (s : PState) (l1 l2 : List Op) : s.run (l1 ++ l2) = (s.run l1).run l2 := by
+  simp [PState.run, List.foldl_append]
+
+theorem run_cons (s : PState) (op : Op) (l : List Op) : s.run (op :: l) = (s.step op).run l := rfl
+
+theorem disciplinedBy_append (sel : Rule → Bool) (s : PState) (l1 l2 : List Op) :
+    disciplinedBy sel s (l1 ++ l2) = (disciplinedBy sel s l1 && disciplinedBy sel (s.run l1) l2) := by
+  induction l1 generalizing s with
+  | nil => simp [disciplinedBy, PState.run]
+  | cons op t ih =>
+    simp only [List.cons_append, disciplinedBy, run_cons, ih, Bool.and_assoc]
+
+/-- visible and terminated: becomes firm at the next directory sync -/
+def _root_.TantivyModel.Storage.FileSt.ready (st : FileSt) : Bool := st.vis && st.term
+
+theorem ready_sync_firm (st : FileSt) (h : st.ready = true) : st.sync.firm = true := by
+  unfold FileSt.ready at h
+  simp only [Bool.and_eq_true] at h
+  simp [FileSt.firm, FileSt.sync, h.1, h.2]
+
+theorem ready_of_firm (st : FileSt) (h : st.firm = true) : st.ready = true := by
+  unfold FileSt.firm at h
+  simp only [Bool.and_eq_true, Bool.not_eq_true'] at h
+  simp [FileSt.ready, h.1.1.2, h.2]
+
+def syncs (k : Nat) : List Op := List.replicate k Op.syncDir
+
+theorem syncs_disciplined (sel : Rule → Bool) (s : PState) (k : Nat) :
+    disciplinedBy sel s (syncs k) = true := by
+  induction k generalizing s with
+  | zero => rfl
+  | succ k ih =>
+    simp only [syncs, List.replicate_succ, disciplinedBy, violations, List.all_nil, Bool.true_and]
+    exact ih _
+
+theorem syncs_firm (s : PState) (k : Nat) (q : Path) (h : (s.dir.file q).firm = true) :
+    ((s.run (syncs k)).dir.file q).firm = true := by
+  induction k generalizing s with
+  | zero => exact h
+  | succ k ih =>
+    simp only [syncs, List.replicate_succ, run_cons]
+    apply ih
+    simpa [PState.step, Dir.step] using firm_sync _ h
+
+theorem syncs_succ_ready_firm (s : PState) (k : Nat) (q : Path) (h : (s.dir.file q).ready = true) :
+    ((s.run (syncs (k + 1))).dir.file q).firm = true := by
+  simp only [syncs, List.replicate_succ, run_cons]
+  apply syncs_firm
+  simpa [PState.step, Dir.step] using ready_sync_firm _ h
+
+theorem syncs_started (s : PState) (k : Nat) : (s.run (syncs k)).started = s.started := by
+  induction k generalizing s with
+  | zero => rfl
+  | succ k ih =>
+    simp only [syncs, List.replicate_succ, run_cons]
+    rw [show List.replicate k Op.syncDir = syncs k from rfl, ih]
+    rfl
+
+theorem getLast_toList {α : Type} (o : Option α) : o.toList.getLast? = o := by
+  cases o <;> rfl
+
+theorem sync_last (s : PState) :
+    (metaCands (s.step .syncDir)).getLast? = (metaCands s).getLast? := by
+  rw [metaCands_step_sync, getLast_toList]
+  unfold metaCands
+  rw [cands_getLast]
+
+theorem syncs_last (s : PState) (k : Nat) :
+    (metaCands (s.run (syncs k))).getLast? = (metaCands s).getLast? := by
+  induction k generalizing s with
+  | zero => rfl
+  | succ k ih =>
+    simp only [syncs, List.replicate_succ, run_cons]
+    rw [show List.replicate k Op.syncDir = syncs k from rfl, ih, sync_last]
+
+/-- effect of writing one fresh file -/
+theorem writeFile_effect (sel : Rule → Bool) (s : PState) (managed : Payload) (p : Path) (n : Nat)
+    (hf : (s.dir.file p).ever = false ∧ (s.dir.file p).vis = false ∧ (s.dir.file p).dur = false) :
+    disciplinedBy sel s (writeFileOps managed p n) = true ∧
+    ((s.run (writeFileOps managed p n)).dir.file p).ready = true ∧
+    (∀ q, q ≠ p → (s.run (writeFileOps managed p n)).dir.file q = s.dir.file q) ∧
+    (s.run (writeFileOps managed p n)).started = s.started ∧
+    metaCands (s.run (writeFileOps managed p n)) = metaCands s := by
+  obtain ⟨h1, h2, h3⟩ := hf
+  have hM : MANAGED ≠ META := by decide
+  have hM' : META ≠ MANAGED := by decide
+  refine ⟨?_, ?_, ?_, ?_, ?_⟩
+  · simp [writeFileOps, disciplinedBy, violations, PState.step, Dir.step, h1, h2, h3, hM, upd]
+  · simp [writeFileOps, PState.run, PState.step, Dir.step, FileSt.ready, upd]
+  · intro q hq
+    simp [writeFileOps, PState.run, PState.step, Dir.step, upd, hq]
+  · simp [writeFileOps, PState.run, PState.step, hM]
+  · simp [writeFileOps, PState.run, PState.step, Dir.step, metaCands, upd, hM']
+
+def writeAll (managed : Payload) (newFiles : List (Path × Nat)) : List Op :=
+  newFiles.flatMap (fun f => writeFileOps managed f.1 f.2)
+
+theorem writeAll_effect (sel : Rule → Bool) (managed : Payload) (newFiles : List (Path × Nat)) (s : PState)
+    (hfresh : ∀ f ∈ newFiles, (s.dir.file f.1).ever = false ∧ (s.dir.file f.1).vis = false ∧ (s.dir.file f.1).dur = false)
+    (hnodup : (newFiles.map Prod.fst).Nodup) :
+    disciplinedBy sel s (writeAll managed newFiles) = true ∧
+    (∀ f ∈ newFiles, ((s.run (writeAll managed newFiles)).dir.file f.1).ready = true) ∧
+    (∀ q, q ∉ newFiles.map Prod.fst → (s.run (writeAll managed newFiles)).dir.file q = s.dir.file q) ∧
+    (s.run (writeAll managed newFiles)).started = s.started ∧
+    metaCands (s.run (writeAll managed newFiles)) = metaCands s := by
+  induction newFiles generalizing s with
+  | nil => simp [writeAll, disciplinedBy, PState.run]
+  | cons f t ih =>
+    have hf := hfresh f (by simp)
+    obtain ⟨e1, e2, e3, e4, e5⟩ := writeFile_effect sel s managed f.1 f.2 hf
+    simp only [List.map_cons, List.nodup_cons] at hnodup
+    let s1 := s.run (writeFileOps managed f.1 f.2)
+    have hfresh' : ∀ g ∈ t, (s1.dir.file g.1).ever = false ∧ (s1.dir.file g.1).vis = false ∧ (s1.dir.file g.1).dur = false := by
+      intro g hg
+      have hne : g.1 ≠ f.1 := by
+        intro e
+        apply hnodup.1
+        rw [← e]
+        exact List.mem_map.mpr ⟨g, hg, rfl⟩
+      show ((s.run (writeFileOps managed f.1 f.2)).dir.file g.1).ever = false ∧ _
+      rw [e3 g.1 hne]
+      exact hfresh g (by simp [hg])
+    obtain ⟨i1, i2, i3, i4, i5⟩ := ih s1 hfresh' hnodup.2
+    have hsplit : writeAll managed (f :: t) = writeFileOps managed f.1 f.2 ++ writeAll managed t := by
+      simp [writeAll]
+    rw [hsplit, disciplinedBy_append, run_append]
+    refine ⟨by simp [e1, i1, s1] , ?_, ?_, ?_, ?_⟩
+    · intro g hg
+      rcases List.mem_cons.mp hg with rfl | hg
+      · by_cases hin : g.1 ∈ t.map Prod.fst
+        · obtain ⟨g', hg', e⟩ := List.mem_map.mp hin
+          have hh := i2 g' hg'
+          rw [e] at hh
+          exact hh
+        · show ((s1.run (writeAll managed t)).dir.file g.1).ready = true
+          rw [i3 g.1 hin]
+          exact e2
+      · exact i2 g hg
+    · intro q hq
+      simp only [List.map_cons, List.mem_cons, not_or] at hq
+      show (s1.run (writeAll managed t)).dir.file q = _
+      rw [i3 q hq.2]
+      exact e3 q hq.1
+    · show (s1.run (writeAll managed t)).started = _
+      rw [i4]; exact e4
+    · show metaCands (s1.run (writeAll managed t)) = _
+      rw [i5]; exact e5
+
+/-- deletes of unreferenced paths break neither D0, D1, D2 nor D4 -/
+theorem deletes_ok (s : PState) (m : Payload) (dels : List Path)
+    (hlast : (metaCands s).getLast? = some m) (hdels : ∀ p ∈ dels, p ≠ META ∧ p ∉ m.refs) :
+    disciplinedBy (fun r => r != .D3a && r != .D3b) s (dels.map Op.delete) = true ∧
+    (metaCands (s.run (dels.map Op.delete))).getLast? = some m := by
+  induction dels generalizing s with
+  | nil => exact ⟨rfl, hlast⟩
+  | cons p t ih =>
+    have hp := hdels p (by simp)
+    have hc : metaCands (s.step (.delete p)) = metaCands s :=
+      metaCands_step_other s _ (by intro e; cases e) (by intro b e; cases e)
+    obtain ⟨j1, j2⟩ := ih (s.step (.delete p)) (by rw [hc]; exact hlast) (fun q hq => hdels q (by simp [hq]))
+    refine ⟨?_, ?_⟩
+    · simp only [List.map_cons, disciplinedBy, Bool.and_eq_true]
+      refine ⟨?_, j1⟩
+      have h4 : (p = META || referencedBy ((metaCands s).getLast?.toList) p) = false := by
+        rw [hlast]
+        simp [referencedBy, hp.1, hp.2]
+      simp only [violations, h4]
+      by_cases h3 : referencedBy (metaCands s).dropLast p = true
+      · simp [h3]
+      · simp [h3]
+    · simpa [List.map_cons, run_cons] using j2
+
+theorem replicate_append_cons_comm {α : Type} (k : Nat) (x : α) (l : List α) :
+    List.replicate k x ++ x :: l = x :: (List.replicate k x ++ l) := by
+  induction k with
+  | zero => rfl
+  | succ k ih => simp [List.replicate_succ, ih]
+
+theorem saveMetasOps_shape (a b : Nat) (m : Payload) :
+    saveMetasOps (List.replicate a 1 ++ [1, 2] ++ List.replicate b 1) m =
+      syncs (a + 1) ++ [Op.atomicWrite META m] ++ syncs b := by
+  have h1 : ∀ k, List.filterMap (fun c => if c = 1 then some Op.syncDir else if c = 2 then some (Op.atomicWrite META m) else none) (List.replicate k 1) = syncs k := by
+    intro k
+    induction k with
+    | zero => rfl
+    | succ k ih => simp [List.replicate_succ, syncs, ih] at *
+  unfold saveMetasOps
+  simp only [List.filterMap_append, h1]
+  simp [syncs, List.replicate_succ]
+  exact replicate_append_cons_comm a _ _
+
+theorem syncs_succ_cands (s : PState) (k : Nat) (m : Payload) (h : (metaCands s).getLast? = some m) :
+    metaCands (s.run (syncs (k + 1))) = [m] := by
+  induction k generalizing s with
+  | zero =>
+    simp only [syncs, List.replicate_succ, List.replicate_zero, run_cons]
+    show metaCands (s.step .syncDir) = [m]
+    rw [metaCands_step_sync]
+    unfold metaCands at h
+    rw [cands_getLast] at h
+    rw [h]; rfl
+  | succ k ih =>
+    rw [show syncs (k + 1 + 1) = Op.syncDir :: syncs (k + 1) from rfl, run_cons]
+    apply ih
+    rw [sync_last]; exact h
+
+/-- deletes of unreferenced paths when the only candidate is `m`: no rule is broken -/
+theorem deletes_ok_synced (s : PState) (m : Payload) (dels : List Path)
+    (hc : metaCands s = [m]) (hdels : ∀ p ∈ dels, p ≠ META ∧ p ∉ m.refs) :
+    Disciplined s (dels.map Op.delete) = true ∧ metaCands (s.run (dels.map Op.delete)) = [m] := by
+  induction dels generalizing s with
+  | nil => exact ⟨rfl, hc⟩
+  | cons p t ih =>
+    have hp := hdels p (by simp)
+    have hc' : metaCands (s.step (.delete p)) = [m] := by
+      rw [metaCands_step_other s _ (by intro e; cases e) (by intro b e; cases e)]; exact hc
+    obtain ⟨j1, j2⟩ := ih (s.step (.delete p)) hc' (fun q hq => hdels q (by simp [hq]))
+    refine ⟨?_, by simpa [List.map_cons, run_cons] using j2⟩
+    rw [List.map_cons, disciplined_cons]
+    refine ⟨?_, j1⟩
+    simp [violations, hc, referencedBy, hp.1, hp.2]
+
 end TantivyModel.CommitProtocol
